@@ -446,6 +446,32 @@ func checkImageURLSources(p *core.Program, r *core.Report, rule string) {
 		} else {
 			r.Undecided(rule, "Document.GetImageURLs loop", "expected one loop")
 		}
+		// nothing else gets into the list: every append adds the answer of an element's own URL
+		// reader (which reads the processed clone, see above) - not an attribute of the page's
+		// element read here
+		nApp, badApp := 0, []string{}
+		for _, call := range core.Calls(fg, func(ci ssa.CallInstruction) bool {
+			b, ok := ci.Common().Value.(*ssa.Builtin)
+			return ok && b.Name() == "append"
+		}) {
+			args := call.Common().Args
+			if len(args) < 2 {
+				continue
+			}
+			if st, ok := args[0].Type().Underlying().(*types.Slice); !ok || !types.Identical(st.Elem(), types.Typ[types.String]) {
+				continue
+			}
+			nApp++
+			src, ok := args[1].(*ssa.Call)
+			if ok {
+				f := src.Call.StaticCallee()
+				ok = f != nil && (f.Name() == "GetURLs" || f.Name() == "GetImageURLs") && core.FnPkgPath(f) == core.ExpandKey(webdocPkg)
+			}
+			if !ok {
+				badApp = append(badApp, p.Pos(call.Pos())+": "+shortVal(c.Of(args[1])))
+			}
+		}
+		r.Add(rule, "ContentImages holds only what the elements' URL readers return", p.Pos(fg.Pos()), len(badApp) == 0 && nApp >= 1, fmt.Sprintf("%d appends to the list; from another source: %v", nApp, badApp))
 	}
 }
 
